@@ -359,7 +359,7 @@ Definition has_wrapper_object (u : universe) (v : value) : bool :=
 
 (* attribution of a failing round trip outside the guard (first match wins, in this order):
    10 best-match tie (set order), 1 key collision, 2 null -> default, 4 compound choice shadowed,
-   11 wrapper field under best-match, 5 tuple field, 7 generic keys filtered,
+   5 tuple field, 7 generic keys filtered,
    12 class guessed by bind_best_dataclass (no type marker in JSON), 0 unexplained *)
 Definition failure_class (uk : universe * dc_case) : N :=
   let '(u, k) := uk in
@@ -371,8 +371,6 @@ Definition failure_class (uk : universe * dc_case) : N :=
        | 2 :: _ => 2
        | l =>
            if existsb (N.eqb 4) l then 4
-           else if existsb (N.eqb 3) l && has_wrapper_object u (dc_value k)
-                   && gres_eqb value_eqb (dc_decoded k) (Err EParser) then 11
            else if existsb (N.eqb 5) l then 5
            else if existsb (N.eqb 7) l then 7
            else if existsb (N.eqb 3) l then 12
